@@ -1512,10 +1512,16 @@ class IRGenerator:
                                 (field_name, quote(namespace_name + '.' + type_name)),
                                 *loc)
                         data_type_to_check = env[namespace_name][type_name]
-                    elif isinstance(env[type_name], Alias):
-                        data_type_to_check = env[type_name].data_type
                     else:
                         data_type_to_check = env[type_name]
+                    data_type_to_check, _ = unwrap_aliases(data_type_to_check)
+                    if not isinstance(data_type_to_check, (Struct, Union)):
+                        # Only structs and unions have fields; the name could
+                        # be that of a primitive, a list, an annotation, ...
+                        raise InvalidSpec(
+                            'Bad doc reference to field %s: %s is not a struct '
+                            'or union.' % (quote(val), quote(type_name)),
+                            *loc)
                     if not any(field.name == field_name
                                for field in data_type_to_check.all_fields):
                         raise InvalidSpec(
